@@ -3,6 +3,8 @@
    tables of Gen/Options.v (regenerated from /repo on every run) say about the source: who reads the debug level,
    skip_define and the presentation options, and for what.  argparse and the decoding of files are modelled. *)
 From NV Require Import Model.Base Model.Diag Model.Errors Model.Cli Model.Engine Model.Options Gen.Options Proofs.OptionsProofs.
+From NV Require Import Model.OptFlow Gen.OptFlow Proofs.OptFlowProofs.
+From Coq Require Import Sorting.Permutation.
 
 (* ---- ties: the reviewed reader tables are what the source says now *)
 Theorem C16_debug_reads_reviewed : debug_reads = reviewed_debug_reads.
@@ -157,6 +159,67 @@ Theorem C16_inline_same_as_file_raw : forall raw a a' path content,
 Proof. exact inline_same_as_file_raw. Qed.
 Print Assumptions C16_inline_same_as_file_raw.
 
+(* ---- the option plumbing of main(), translated statement by statement (Gen/OptFlow.v: label, uses, defs over local
+   names, args.<dest>, HEAP = all objects incl. every File's diagnostics and stdout, EXIT) *)
+(* noninterference for ANY def/use program under ANY statement semantics (each statement an arbitrary function of the
+   values of its uses) *)
+Theorem C16_flow_noninterference : forall (V : Type) (sem : fstmt -> list V -> list V) p T (e1 e2 : env),
+  agree_off T e1 e2 -> agree_off (taint_all T p) (run_flow sem p e1) (run_flow sem p e2).
+Proof. exact @noninterference. Qed.
+Print Assumptions C16_flow_noninterference.
+
+(* colours / format / -o reach ONLY: the choice of the formatter class, the formatter call after the analysis loop, the
+   print of its result and the final sys.exit *)
+Theorem C16_presentation_reaches_only :
+  reached presentation_sources main_flow =
+  ["format = next(filter(lambda it: it.name == args.format, formatters))";
+   "errors = format(files, use_colors=not args.no_colors)";
+   "print(errors, end='')";
+   "sys.exit(1 if any((it.errors.status == 'Error' for it in files)) else 0)"]%string
+  /\ (analysis_loop_index < format_call_index)%nat
+  /\ option_map fs_label (nth_error main_flow analysis_loop_index) = Some "for file in files"%string
+  /\ option_map fs_label (nth_error main_flow format_call_index) = Some "errors = format(files, use_colors=not args.no_colors)"%string.
+Proof. exact presentation_reaches_only. Qed.
+Print Assumptions C16_presentation_reaches_only.
+
+(* hence, whatever Lexer / Context / Registry.run do: two runs of main() that differ only in colours / format / -o have
+   the same heap (every File object with its diagnostics), the same file list and the same exit state at the end of the
+   analysis loop - the diagnostics of each File are a function of (selected content and names, debug, R) *)
+Theorem C16_analysis_independent_of_presentation : forall (V : Type) (sem : fstmt -> list V -> list V) (e1 e2 : env),
+  agree_off presentation_sources e1 e2 ->
+  run_flow sem analysis_part e1 "HEAP"%string = run_flow sem analysis_part e2 "HEAP"%string /\
+  run_flow sem analysis_part e1 "files"%string = run_flow sem analysis_part e2 "files"%string /\
+  run_flow sem analysis_part e1 "EXIT"%string = run_flow sem analysis_part e2 "EXIT"%string.
+Proof. exact heap_after_analysis. Qed.
+Print Assumptions C16_analysis_independent_of_presentation.
+
+(* Context(file, tokens, debug, args.R): `debug` is args.debug, the 3rd / 4th parameters of Context.__init__ are the
+   ones its two translated assignments read, and the model's ctx_of_args IS that translation *)
+Theorem C16_context_plumbing :
+  nth_error context_call_args 2 = Some "debug"%string /\ nth_error context_init_params 2 = Some context_debug_param /\
+  nth_error context_call_args 3 = Some "args.R"%string /\ nth_error context_init_params 3 = Some context_skip_param /\
+  existsb (fun st => String.eqb (fs_label st) "debug = args.debug" && smem "args.debug" (fs_uses st)
+                     && smem "debug" (fs_defs st)) main_flow = true /\
+  List.length (filter (fun st => smem "debug" (fs_defs st)) main_flow) = 1%nat.
+Proof. exact context_plumbing. Qed.
+Print Assumptions C16_context_plumbing.
+
+Theorem C16_ctx_of_args_from_source : forall a, ctx_of_args a = mkctxopts (gen_ctx_debug (a_debug a)) (gen_ctx_skip (a_R a)).
+Proof. exact ctx_of_args_from_source. Qed.
+Print Assumptions C16_ctx_of_args_from_source.
+
+(* ---- -f, from C08's theorems (C08_formats_agree, C08_sort_is_permutation) instead of the reader table: both formats
+   show the same (verdict, diagnostics) per file, and that is the file's own list - a permutation, nothing dropped *)
+Theorem C16_format_views_from_C08 : forall a1 a2 files, views a1 files = views a2 files.
+Proof. exact format_views_from_C08. Qed.
+Print Assumptions C16_format_views_from_C08.
+
+Theorem C16_shown_is_the_files_diagnostics : forall a f v, file_view (is_json a) f = Some v ->
+  v_status v = status (f_errors f) /\
+  exists ds, Permutation (f_errors f) ds /\ omap dview_of ds = Some (v_diags v).
+Proof. exact shown_is_the_files_diagnostics. Qed.
+Print Assumptions C16_shown_is_the_files_diagnostics.
+
 (* ================================================================== non-vacuity *)
 (* a rule set that raises at level 0 only: the third statement is a `goto 3;` *)
 Definition ex_step : Z -> nat * list diag -> sres (nat * list diag) :=
@@ -233,3 +296,20 @@ Example C16_example_inline :
   (* empty inline content is falsy: main() falls back to the path selection *)
   files_of_args (args_of [FlCfile []; FlFilename (s "x.c")]) = [].
 Proof. repeat split. Qed.
+
+(* the flow analysis is not vacuous: under a semantics where every statement sums its inputs, --no-colors changes the
+   formatter's result and nothing the analysis loop leaves behind *)
+Example C16_example_flow :
+  let sem := fun (st : fstmt) (vals : list nat) => repeat (fold_left Nat.add vals 0%nat) (List.length (fs_defs st)) in
+  let e1 : env := fun _ => 0%nat in
+  let e2 : env := fun x => if String.eqb x "args.no_colors" then 1%nat else 0%nat in
+  agree_off presentation_sources e1 e2 /\
+  run_flow sem main_flow e1 "errors"%string <> run_flow sem main_flow e2 "errors"%string /\
+  run_flow sem analysis_part e1 "HEAP"%string = run_flow sem analysis_part e2 "HEAP"%string.
+Proof.
+  cbv zeta. split; [|split].
+  - intros x Hx. destruct (String.eqb x "args.no_colors") eqn:E; [|reflexivity].
+    apply String.eqb_eq in E. subst x. vm_compute in Hx. discriminate.
+  - vm_compute. discriminate.
+  - vm_compute. reflexivity.
+Qed.
